@@ -73,7 +73,9 @@ def impl(case):
             out = v.rank(method=arg)
         else:
             out = v.unique()
-        res = {"out": vecgen.canon_array(out), "dtype": str(out.dtype)}
+        res = {"out": vecgen.canon_array(out), "dtype": str(out.dtype), "in_dtype": str(v.dtype),
+               # what the library itself calls missing, before and after (a result of another dtype class may flag other elements)
+               "na_in": [bool(x) for x in v.is_na()], "na_out": [bool(x) for x in out.is_na()] if op != "rank" else None}
     except Exception as e:
         res = {"err": f"{type(e).__name__}: {e}"}
     res["mutated"] = vecgen.canon_array(v) != before
@@ -134,6 +136,15 @@ def judge(ctx, case, obs, mouts):
         out = obs["out"]
         if obs["mutated"]:
             ctx.violation("oracle", f"{op}:mutates", f"Vector.{op} changed its receiver", case, obs)
+        if op in ("sort", "unique") and obs.get("na_out") is not None:
+            # sort / unique return elements of the receiver: the same kind of vector, with the library's own missing flags
+            # where the receiver had them (for sort: as many, all at the end)
+            if obs["dtype"] != obs["in_dtype"]:
+                ctx.violation("oracle", f"{op}:dtype-changed", f"Vector.{op} of a {obs['in_dtype']} vector returned a {obs['dtype']} vector", case, obs)
+            elif op == "sort":
+                k_in = sum(obs["na_in"])
+                if sum(obs["na_out"]) != k_in or (k_in and not all(obs["na_out"][len(out) - k_in:])):
+                    ctx.violation("oracle", "sort:missing-flags", f"the result flags {obs['na_out']} as missing, the receiver had {k_in} missing element(s): they are not the same elements, all last", case, obs)
         if op == "sort":
             okey = (lambda v: str(v)) if kind in ("objint", "objstr") else (lambda v: vecgen.sort_key(kind, v))
             if sorted(map(repr, out)) != sorted(map(repr, cvals)):
